@@ -11,12 +11,12 @@ open NodisVerif.Proofs.Proto
 
 /-- program counters inside an `s.mu.Lock()` … `s.mu.Unlock()` section -/
 def inW : Pc → Bool
-  | .a5 | .a6r | .a6c | .n3 | .n4 | .d2 | .d3 | .d4 | .c9 | .c10 => true
+  | .a5 | .a6r | .a6c | .n3 | .n4 | .d2 | .d3 | .d4 | .c9 | .c10 | .g8 | .g9 => true
   | _ => false
 
 /-- program counters inside an `s.mu.RLock()` … `s.mu.RUnlock()` section -/
 def inR : Pc → Bool
-  | .a2 | .a3 | .a11 | .a12 => true
+  | .a2 | .a3 | .a11 | .a12 | .g5 | .g6 => true
   | _ => false
 
 def acqPc : Pc → Bool
@@ -69,5 +69,39 @@ theorem tstep_smu {s s' : Shared} {t : Tid} {l l' : Loc} {ch : Choice} {e : Opti
     simp only [inW_retTo, inR_retTo, inW_nextPlan, inR_nextPlan, inW_commitNext, inR_commitNext] <;>
     simp_all [inW, inR, wfMu, Mu.lock, Mu.unlock, Mu.rlock, Mu.runlock, Mu.canLock, Mu.canRLock] <;>
     (try (intro u h1 h2; exact h1 h2.symm))
+
+/-- while a transaction holds a record (any mode), the index entry of that record is not touched by the steps of
+    other transactions: a publication under the same key is impossible (the key is in the index), an unlink of it
+    needs a write hold on the record -/
+theorem index_stable {s s' : PState} {e : Ev} (hi : Inv s) {t u : Tx} {st : TxSt} {h : Hold} {k : Key}
+    (htx : s.tx u = some st) (hh : h ∈ st.holds) (hl : assoc s.index k = some h.rid)
+    (he : evTx e = some t) (hne : t ≠ u) (hs : Proto.step s e = some s') : assoc s'.index k = some h.rid := by
+  cases e with
+  | begin v => obtain ⟨_, rfl⟩ := step_begin.1 hs; exact hl
+  | look v k r => obtain ⟨_, _, _, _, _, rfl⟩ := step_look.1 hs; exact hl
+  | claim v k' r' m => obtain ⟨_, _, _, _, _, _, rfl⟩ := step_claim.1 hs; exact hl
+  | wait v k r m => obtain ⟨_, _, _, _, _, _, _, rfl⟩ := step_wait.1 hs; exact hl
+  | lock v k r m => obtain ⟨_, _, _, _, rfl⟩ := step_lock.1 hs; exact hl
+  | valid v k r ok => obtain ⟨_, _, _, _, _, _, ⟨_, rfl⟩ | ⟨_, _, rfl⟩⟩ := step_valid.1 hs <;> exact hl
+  | publish v k' r' =>
+    obtain ⟨_, _, _, _, _, _, _, _, _, hx, rfl⟩ := step_publish.1 hs
+    have hne' : k ≠ k' := by intro c; subst c; rw [hx] at hl; cases hl
+    simpa [assoc_put, hne'] using hl
+  | unlink v k' r' =>
+    obtain ⟨su, g, a, b, c, d⟩ := unlink_needs_w hs
+    obtain ⟨_, _, _, _, _, _, _, _, hx, rfl⟩ := step_unlink.1 hs
+    simp only [evTx, Option.some.injEq] at he; subst he
+    have hne' : k ≠ k' := by
+      intro e; subst e
+      rw [hx] at hl
+      have hr : r' = h.rid := Option.some.inj hl
+      exact hne (hi.compat v u su st g h a htx b hh (by rw [c, hr]) (Or.inl d))
+    simpa [assoc_erase, hne'] using hl
+  | commit v => obtain ⟨_, _, _, _, _, rfl⟩ := step_commit.1 hs; exact hl
+  | trylock v k r => obtain ⟨_, _, _, _, _, rfl⟩ := step_trylock.1 hs; exact hl
+  | drop v k' r' => obtain ⟨_, _, _, _, _, _, _, _, rfl⟩ := step_drop.1 hs; exact hl
+  | unlock v r => obtain ⟨_, _, _, _, _, rfl⟩ := step_unlock.1 hs; exact hl
+  | fin v => obtain ⟨_, _, _, _, rfl⟩ := step_fin.1 hs; exact hl
+  | clear => cases he
 
 end NodisVerif.Proofs.TxProg
